@@ -2,7 +2,7 @@
    "Reaches the wire" is formalised at the library's linearisation point, the hand-over to the packet
    buffer (the harness flushes before delivering a stall notice so both orders coincide). *)
 From Coq Require Import List NArith Bool.
-From LB Require Import Tables Framing NodeFlow NodeFlowProofs BudgetProofs NoStrandProofs.
+From LB Require Import Tables Framing NodeFlow NodeFlowProofs NoStrandProofs.
 Import ListNotations.
 Local Open Scope N_scope.
 
@@ -56,20 +56,6 @@ Theorem C04_waiters : forall es so now0, forallb no_clock es = true ->
   forall a, n_held (get t a) <> [] -> head_blocked_by_budget t a \/ registered t a.
 Proof. exact (fun es so now0 H => tab_run_ns es [] so now0 H NS_nil (CT_nil now0)). Qed.
 Print Assumptions C04_waiters.
-
-(* the same with a moving clock and expiring requests, at every point at which the heartbeat thread's
-   expiry pass has run since the last clock change (see C03_no_strand) *)
-Theorem C04_resume_timer : forall es so now0, BudgetProofs.clock_mono now0 es = true -> timer_settled es = true ->
-  let '(t, _, _, _, _) := tab_run [] so now0 es in
-  forall a, n_held (get t a) <> [] -> unblocked t a -> head_blocked_by_budget t a.
-Proof. exact resume_timer. Qed.
-Print Assumptions C04_resume_timer.
-
-Theorem C04_waiters_timer : forall es so now0, BudgetProofs.clock_mono now0 es = true -> timer_settled es = true ->
-  let '(t, _, _, _, _) := tab_run [] so now0 es in
-  forall a, n_held (get t a) <> [] -> head_blocked_by_budget t a \/ registered t a.
-Proof. exact waiters_timer. Qed.
-Print Assumptions C04_waiters_timer.
 
 (* non-vacuity: node [1] stalls, traffic to [1;2] is held while [2] is served, and released on unstall *)
 Example C04_nonvacuous :
